@@ -454,7 +454,7 @@ class Walk:
     def _iter(self, v):
         if isinstance(v, (list, tuple)):
             return iter(v)
-        if isinstance(v, (types.GeneratorType, itertools.chain, itertools.takewhile, itertools.dropwhile, itertools.filterfalse, itertools.islice)) or type(v).__name__.endswith('iterator'):
+        if isinstance(v, (types.GeneratorType, itertools.chain, itertools.takewhile, itertools.dropwhile, itertools.filterfalse, itertools.islice, zip, enumerate)) or type(v).__name__.endswith('iterator'):
             return v
         raise _PyErr('TypeError', 'object is not iterable')
 
@@ -489,6 +489,11 @@ class Walk:
                 if name == 'all' and not t:
                     return False
             return name == 'all'
+        if name == 'zip':
+            its = [self._iter(x) for x in av]
+            return zip(*its)
+        if name == 'enumerate' and len(av) in (1, 2) and (len(av) == 1 or isinstance(av[1], int)):
+            return enumerate(self._iter(av[0]), *(av[1:]))
         if name == 'filter' and len(av) == 2:
             pred, it = av[0], self._iter(av[1])
             if pred is not None and not isinstance(pred, _Closure):
@@ -621,6 +626,16 @@ class Walk:
                 if -len(base) <= idx < len(base):
                     return base[idx]
                 raise _PyErr('IndexError')
+            if isinstance(base, (list, tuple)) and isinstance(e.slice, ast.Slice):
+                parts = []
+                for x in (e.slice.lower, e.slice.upper, e.slice.step):
+                    v = None if x is None else self.ev(x, sc, fi, depth)
+                    if v is not None and not (isinstance(v, int) and not isinstance(v, bool)):
+                        raise Undecided(f'{fi.qualname}: slice bound outside the vocabulary: {u(e)}')
+                    parts.append(v)
+                if parts[2] == 0:
+                    raise _PyErr('ValueError', 'slice step cannot be zero')
+                return base[slice(*parts)]
             raise Undecided(f'{fi.qualname}: subscript outside the vocabulary: {u(e)}')
         if isinstance(e, ast.UnaryOp) and isinstance(e.op, ast.USub) and isinstance(e.operand, ast.Constant) and isinstance(e.operand.value, _NUM):
             return -e.operand.value
